@@ -264,13 +264,17 @@ def check_enc(ctx, res, prop, eng):
         res.add(f)
 
 
-def check_fresh(ctx, res, prop):
+def check_fresh(ctx, res, prop, classes=()):
     """R-FRESH: insertions under an automatic key preserve I only if that key is new, i.e. if the counter
-    invariant of C04 holds; its global rules (owners of the counter, shape of update_uid_counter) are premises here."""
-    from .c04_uid import check_owners, check_update_uid_counter
+    invariant of C04 holds; its global rules (owners of the counter, shape of update_uid_counter) and, for the classes
+    of this property, the per-site rules (guard before a caller-supplied ID, counter bump after it) are premises here."""
+    from .c04_uid import check_owners, check_update_uid_counter, site_checks
 
     check_owners(ctx.repo, res, prop)
     check_update_uid_counter(ctx.repo, res, prop)
+    if classes:
+        n, _ = site_checks(ctx, ctx.repo, Effects(ctx.repo), res, classes, prop)
+        res.floor(f"insertion sites of new edge keys in {'/'.join(classes)}", n, 2)
 
 
 def helper_contracts(repo, cname, directed, methods, writer_names):
